@@ -838,6 +838,8 @@ class Lower:
                 return 'seq_%s__data(%s)' % (m, optr)
             if name in ('at',):
                 return '(*seq_%s__at(%s, %s))' % (m, optr, self.ex(args[0]))
+            if name == 'operator=' and len(args) == 1:
+                return 'seq_%s__assign(%s, %s)' % (m, optr, self.addr(self.ex(args[0])))      # (member-call form in implicitly defined operator=)
             raise LowerError("vector::" + name)
         if cls == 'umap':
             m = self.types.mangle(t.args[0]) + '_' + self.types.mangle(t.args[1])
@@ -848,6 +850,8 @@ class Lower:
                 return 'umap_%s__%s(%s)' % (m, name, optr)
             if name == 'find':
                 return 'umap_%s__find(%s, %s)' % (m, optr, self.elem_arg(args[0], t.args[0]))
+            if name == 'operator=' and len(args) == 1:
+                return 'umap_%s__assign(%s, %s)' % (m, optr, self.addr(self.ex(args[0])))
             raise LowerError("unordered_map::" + name)
         if cls == 'uptr':
             if name in ('get',):
@@ -993,6 +997,8 @@ class Lower:
             self.types.ctype(t)
             if name == 'operator[]':
                 return '(*umap_%s__index(%s, %s))' % (m, self.addr(self.ex(a0)), self.elem_arg(args[1], t.args[0]))
+            if name == 'operator=':
+                return 'umap_%s__assign(%s, %s)' % (m, self.addr(self.ex(a0)), self.addr(self.ex(args[1])))
             raise LowerError("unordered_map " + name)
         if cls == 'iter':
             if name in ('operator!=', 'operator=='):
@@ -1531,9 +1537,20 @@ class Lower:
         if init:
             out.extend(self.st(init, ind + '  '))
         mark = self.loop_marker()
-        ce = self.ex(c) if c else '1'
         if c and self.has_call(c):
-            raise LowerError("for condition with call")
+            # condition with a call (v.size()): evaluated at the top of the body, as for while loops
+            ie = self.ex(inc) if inc else ''
+            if self.pre:
+                raise LowerError("temporaries in for header")
+            out.append('%s  for (; 1; %s) %s' % (ind, ie, mark))
+            out.append(ind + '  {')
+            ce = self.cond(c, ind + '    ', out)
+            out.append('%s    if (!(%s)) break;' % (ind, ce))
+            out.extend(self.block(body, ind + '    '))
+            out.append(ind + '  }')
+            out.append(ind + '}')
+            return
+        ce = self.ex(c) if c else '1'
         ie = self.ex(inc) if inc else ''
         if self.pre:
             raise LowerError("temporaries in for header")
@@ -1716,7 +1733,11 @@ class Lower:
                 self.local_ids.add(p['id'])
                 if p.get('name') in drop_params:
                     continue
-                params.append((self.types.ctype(qt(p)), p.get('name') or self.tmp('p')))
+                pn = p.get('name')
+                if not pn:
+                    pn = self.tmp('p')
+                    self.rename[p['id']] = pn       # unnamed parameter (implicitly defined special members refer to it)
+                params.append((self.types.ctype(qt(p)), pn))
         params.extend(extra_params)
         f.params = params
         ft = fn['type']['qualType']
